@@ -317,17 +317,23 @@ fn find_literal_in_output(flat: &vcommon::doc::Flat, out: &str, b: &Boundary) ->
 
 fn wide_int_payload(rng: &mut Rng) -> (Vec<Tok>, &'static str) {
     // integers of any width in uninterpreted IF_DATA
-    let v: i128 = match rng.below(6) {
+    let v: i128 = match rng.below(10) {
         0 => i128::from(i32::MAX) + 1,
         1 => 4294967297,
         2 => i128::from(u32::MAX),
         3 => i128::from(i64::MAX),
         4 => i128::from(i32::MIN) - 1,
+        5 => i128::from(i64::MAX) + 1,
+        6 => i128::from(u64::MAX),
+        7 => i128::from(i64::MAX) + 1 + i128::from(rng.next_u64() >> 1),
+        8 => i128::from(i64::MIN),
         _ => (rng.next_u64() >> rng.below(30)) as i128,
     };
     let hex = v >= 0 && rng.coin();
     let text = if hex { format!("0x{v:X}") } else { format!("{v}") };
-    let class = if v > i128::from(i32::MAX) || v < i128::from(i32::MIN) {
+    let class = if v > i128::from(i64::MAX) {
+        "unsigned 64 bit beyond i64"
+    } else if v > i128::from(i32::MAX) || v < i128::from(i32::MIN) {
         "wider than 32 bit"
     } else {
         "32 bit"
@@ -353,9 +359,11 @@ pub fn check_doc(rec: &mut Recorder, g: &Grammar, doc: &Doc, text: &str, origin:
         }
         Ok(Err(e)) => {
             rec.bump("rejected");
-            if rec.hist.get("rejected").copied().unwrap_or(0) <= 2 {
-                rec.notes.push(format!("rejected document: {e}"));
-            }
+            rec.violation(
+                &format!("document generated from the reference grammar is rejected: {}", crate::gram::err_class(&e)),
+                &e.to_string(),
+                witness_text(origin, text, ""),
+            );
             return false;
         }
         Ok(Ok(v)) => v,
